@@ -150,6 +150,24 @@ def {N}(Py_ssize_t start, Py_ssize_t stop, Py_ssize_t step, int nt, int chunk, i
         s += 1
     return ('done', s >= 0)
 ''',
+    'rbreak': '''
+def {N}(Py_ssize_t start, Py_ssize_t stop, Py_ssize_t step, int nt, int chunk, int dseed, exc, int mod, int[::1] raised, Py_ssize_t off):
+    # raise in some iterations, break in others, no return anywhere in the loop
+    cdef Py_ssize_t i = -777
+    cdef int k
+    cdef long s = 0
+    for i in prange(start, stop, step, nogil=True, num_threads=nt{S}):
+        k = (i % mod + mod) % mod
+        if k == 1:
+            raised[i + off] = 1
+            with gil:
+                raise exc(i)
+        verif_delay(i, dseed)
+        if k == 3:
+            break
+        s += 1
+    return ('done', s >= 0)
+''',
     'ret': '''
 cdef long {N}_c(Py_ssize_t start, Py_ssize_t stop, Py_ssize_t step, int nt, int chunk, int dseed, int mod, int rem) noexcept nogil:
     cdef Py_ssize_t i
